@@ -103,6 +103,12 @@ Free6(st, key) ==
          {S \in KSub(6, F) : ClosedSurface(st, SortedSeq(S))} : w \in HexCubesOf(key[2])}
 FirstN(S, n) == LET q == SortedSeq(S) IN {q[i] : i \in 1 .. (IF Len(q) < n THEN Len(q) ELSE n)}
 
+(* no halfface of the tetrahedron (v1 v2 v3 v4) that already exists belongs  *)
+(* to a cell: adding it keeps every halfface in at most one cell            *)
+TetFreeToAdd(st, v) ==
+  \A tri \in {<<v[1], v[2], v[3]>>, <<v[1], v[3], v[4]>>, <<v[1], v[4], v[2]>>, <<v[2], v[4], v[3]>>} :
+     LET hf == FindHalffaceV(st, tri) IN hf = -1 \/ At(st.inc, hf) = -1
+
 XCallsOf(st, op, key) ==
   CASE op = "collapse_edge" ->
          IF ~(TetComplex(st) /\ CacheIsInverse(st)) THEN {}
@@ -114,10 +120,11 @@ XCallsOf(st, op, key) ==
              {y \in FreeHF(st) \X LiveV(st) \X (0 .. 2) \X BOOLEAN :
                  /\ Len(At(st.faces, Full(y[1]))) = 3
                  /\ y[2] \notin Rng(HFVerts(st, y[1]))
-                 /\ (y[3] = 0 \/ y[4])}}
+                 /\ (y[3] = 0 \/ y[4])
+                 /\ TetFreeToAdd(st, Append(HFVerts(st, y[1]), y[2]))}}
     [] op = "tet_add_cell_new" ->       \* a tetrahedron on four arbitrary distinct live vertices
-         {KLF("tet_add_cell_4", SortedSeq(S), FALSE) : S \in KSub(4, FirstN(LiveV(st), 6))}
-         \cup {KLF("tet_add_cell_v", Rev(SortedSeq(S)), TRUE) : S \in KSub(4, FirstN(LiveV(st), 6))}
+         {KLF("tet_add_cell_4", SortedSeq(S), FALSE) : S \in {T \in KSub(4, FirstN(LiveV(st), 6)) : TetFreeToAdd(st, SortedSeq(T))}}
+         \cup {KLF("tet_add_cell_v", Rev(SortedSeq(S)), TRUE) : S \in {T \in KSub(4, FirstN(LiveV(st), 6)) : TetFreeToAdd(st, Rev(SortedSeq(T)))}}
     [] op = "add_cell4" ->              \* halfface lists for the tetrahedral add_cell: all closed ones, and open / wrong-valence ones
          {KLF("add_cell", SortedSeq(S), TRUE) : S \in KSub(4, FreeHF(st)) \cup KSub(3, FirstN(FreeHF(st), 6)) \cup KSub(5, FirstN(FreeHF(st), 6))}
          \cup {KLF("add_cell", Rev(SortedSeq(S)), FALSE) : S \in {T \in KSub(4, FreeHF(st)) : ClosedSurface(st, SortedSeq(T))}}
@@ -137,7 +144,7 @@ XCallsOf(st, op, key) ==
     (* invalid lists: one entry of a valid ordering replaced (duplicate,    *)
     (* opposite halfface, foreign halfface); wrong lengths                  *)
     [] op = "add_cell_bad" ->
-         LET bases == UNION {{SortedSeq(S), Rev(SortedSeq(S)), RotL(SortedSeq(S), 2)} : S \in Free6(st, key)}
+         LET bases == UNION {{SortedSeq(S), RotL(Rev(SortedSeq(S)), 2)} : S \in Free6(st, key)}
              repl  == LiveHF(st)
          IN {KLF("add_cell", [b EXCEPT ![i] = x], TRUE) : b \in bases, i \in 1 .. 6, x \in repl}
             \cup {KLF("add_cell", SubSeq(b, 1, 5), TRUE) : b \in bases}
@@ -145,13 +152,19 @@ XCallsOf(st, op, key) ==
     [] op = "add_cell6" ->              \* every ordering of a few arbitrary sets of six free halffaces
          {KLF("add_cell", SortedSeq(S), TRUE) : S \in KSub(6, FirstN(FreeHF(st), 9))}
     [] op = "hex_add_cell_v" ->         \* a missing cube of the seed's shape, in all 24 vertex orders
-         {KLF(op, RotList(v, r), b) : v \in {w \in HexCubesOf(key[2]) :
-                                               /\ Rng(w) \subseteq LiveV(st)
-                                               /\ \A c \in LiveC(st) : CellVertSet(st, c) # Rng(w)},
-                                      r \in 1 .. 24, b \in BOOLEAN}
+         (* only while the seed's vertex numbering is intact (no vertex slot was removed) *)
+         IF st.nv # HexSeedDef(key[2]).nv THEN {} ELSE
+         {KLF(op, RotList(x[1], x[2]), x[3]) : x \in
+             {y \in HexCubesOf(key[2]) \X (1 .. 24) \X BOOLEAN :
+                 /\ Rng(y[1]) \subseteq LiveV(st)
+                 /\ \A c \in LiveC(st) : CellVertSet(st, c) # Rng(y[1])
+                 /\ (y[3] \/ y[2] = 1)}}
     [] op = "add_face4" ->
-         {KLF("add_face", l, TRUE) : l \in {l \in [1 .. 4 -> FirstN(LiveHE(st), 8)] : TRUE}}
-         \cup {KLF("add_face", l, b) : l \in {l \in [1 .. 3 -> FirstN(LiveHE(st), 8)] : TRUE}, b \in BOOLEAN}
+         {KLF("add_face", l, TRUE) : l \in [1 .. 4 -> FirstN(LiveHE(st), 5)]}
+         \cup {KLF("add_face", l, b) : l \in [1 .. 3 -> FirstN(LiveHE(st), 5)], b \in BOOLEAN}
+         \cup {KLF("add_face", l, FALSE) : l \in {l \in [1 .. 4 -> FirstN(LiveHE(st), 8)] : ClosedLoop(st, l)}}
+         \cup {KL("add_face_v", l) : l \in {l \in [1 .. 4 -> FirstN(LiveV(st), 5)] : Cardinality(Rng(l)) = 4}}
+         \cup {KL("add_face_v", l) : l \in {l \in [1 .. 3 -> FirstN(LiveV(st), 4)] : Cardinality(Rng(l)) = 3}}
     [] OTHER -> CallsOf(st, op)
 
 XCalls(st, ops, key) == UNION {XCallsOf(st, op, key) : op \in ops}
@@ -233,15 +246,25 @@ XNext ==
      \/ Len(path) < Depth /\ \E c \in XCalls(s, TargetOps, org.key) : XStep(c, TRUE)
 XSpec == XInit /\ [][XNext]_vars
 
+(* simulation: pick an operation of the alphabet at random, then one of its *)
+(* in-contract argument tuples (collect_garbage when it has none)           *)
 XSimNext ==
   /\ bad = "" /\ Len(path) < Depth - 1
-  /\ LET cs == XCalls(s, HistOps, org.key) IN
-     cs # {} /\ \E c \in {RandomElement(cs)} : XStep(c, FALSE)
+  /\ LET op  == RandomElement(HistOps)
+         cs  == XCallsOf(s, op, org.key)
+         cs2 == IF cs = {} THEN {K0("collect_garbage")} ELSE cs
+     IN \E c \in {RandomElement(cs2)} : XStep(c, FALSE)
+XSimView == <<s, done, bad, Len(path)>>
 XSimSpec == XInit /\ [][XSimNext]_vars
+
+(* simulation: every state of a random behaviour reports its history and   *)
+(* the number of the behaviour; the longest report per behaviour is used   *)
+XSimTrace == (Emit = "sim" /\ Len(path) >= 1 /\ (Len(path) % 1 = 0 \/ Len(path) >= Depth - 2 \/ bad # "")) =>
+   PrintT(<<"SIM", ToJson([key |-> org.key, script |-> org.script, path |-> path, t |-> TLCGet("stats").traces])>>)
 
 (* a failed check of the model against the oracles is reported, the      *)
 (* exploration continues elsewhere (the state itself is not extended)     *)
-XReport == bad # "" => PrintT(<<"MBAD", ToJson([key |-> org.key, path |-> path, bad |-> bad])>>)
+XReport == bad # "" => PrintT(<<"MBAD", ToJson([key |-> org.key, script |-> org.script, path |-> path, bad |-> bad])>>)
 
 (* seeds satisfy the state predicates and the query contracts              *)
 XSeedOK == (path = <<>>) =>
